@@ -36,7 +36,7 @@ id,m,place,out=sys.argv[1:]
 notes=''
 try: notes=open(out+'/notes.md').read().strip().replace('\n',' ')[:600]
 except Exception: pass
-json.dump({"property":id,"id":id+"-"+m,"author":"independent sub-agent (round 2) given only the property record and a scratch worktree of /repo's HEAD",
+json.dump({"property":id,"id":id+"-"+m,"author":"independent sub-agent (round "+__import__("os").environ.get("ROUND","2")+") given only the property record and a scratch worktree of /repo's HEAD",
  "breaks_and_needs":notes,"demo":{"file":"demo_test.go","place_in":place,"run":"go test -vet=off -count=1 -run 'ZZ|Demo|Mut' ./"+place},
  "confirmed":"tools/confirm2.sh: scratch worktree of /repo HEAD; patch applies; go build ./... ok; go test -vet=off -count=1 ./... passes with the change; demo fails with the change and passes without it",
  "detected_by":"(see DESIGN.md section 9 table)"},open(out+'/meta.json','w'),indent=1)
